@@ -343,4 +343,175 @@ theorem cop_refines (np n : Nat) (d : Det) (s s' : RunState) (op : COp) (hwf : o
       exact ⟨h2.norm, [], by simp, rfl, by rw [norm_gstate]; exact h1⟩
     · cases hs
 
+/-! ## 3. operations of the compile sequence as circuit operations -/
+
+/-- register of the compile loop (`c`-type registers never carry a gate; junk value) -/
+def toQReg (r : Reg) : QReg := ⟨match r.ty with | .e => .e | _ => .p, r.idx⟩
+
+theorem regIx_qIndex {ne np : Nat} {r : Reg} {q : Nat} (h : regIx ne np r = some q) : qIndex np (toQReg r) = q := by
+  obtain ⟨ty, idx⟩ := r
+  rcases regIx_spec h with ⟨h0, _, h2⟩ | ⟨h0, _, h2⟩ <;> simp only at h0 h2 <;> subst h0 <;> subst h2 <;> rfl
+
+def g1COp (g : G1) (q : QReg) : COp :=
+  match g with
+  | .I => .gate1 .I q | .H => .gate1 .H q | .P => .gate1 .P q | .Pdg => .pdag q
+  | .X => .gate1 .X q | .Y => .gate1 .Y q | .Z => .gate1 .Z q
+
+def pairCOp (k : Kind) (c t : QReg) (cr : Nat) : COp :=
+  match k with
+  | .cnot => .cnot c t | .cz => .cz c t | .ccnot => .ccx c t cr | .ccz => .ccz c t cr | .mcr => .mcr c t cr
+  | _ => .gate1 .I c
+
+/-- the circuit operation `compile_one_gate` receives for an operation of the compile sequence (junk on malformed input) -/
+def toCOp (a : SOp) : COp :=
+  match a.item, a.regs with
+  | .g g, [r] => g1COp g (toQReg r)
+  | .node .measZ _ cr, [r] => .measz (toQReg r) (cr.headD 0)
+  | .node k _ cr, [c, t] => pairCOp k (toQReg c) (toQReg t) (cr.headD 0)
+  | _, _ => .gate1 .I ⟨.p, 0⟩
+
+theorem g1Prims_eq (np : Nat) (g : G1) (r : QReg) : ∀ o, g1Prims g (qIndex np r) = copPrims np (g1COp g r) o := by
+  intro o; cases g <;> rfl
+
+/-- a decodable operation with distinct registers is the circuit operation `toCOp a`: same primitives, same "measures" flag,
+    and the circuit operation satisfies the compiler's precondition (control ≠ target) -/
+theorem decode_toCOp (ne np : Nat) (a : SOp) (d : Dec) (hdec : decode ne np a = some d) (hnd : a.regs.Nodup) :
+    (toCOp a).WF2 np ∧ (∀ o, d.prims o = copPrims np (toCOp a) o) ∧ d.mreg.isSome = (toCOp a).measures := by
+  have h := hdec
+  unfold decode at h
+  unfold toCOp
+  split at h
+  · next g r hitem hregs =>
+    rw [hitem, hregs]
+    cases hq : regIx ne np r with
+    | none => rw [hq] at h; cases h
+    | some q =>
+      rw [hq] at h
+      simp only [Option.map_some, Option.some.injEq] at h
+      subst h
+      have hix := regIx_qIndex hq
+      refine ⟨?_, fun o => ?_, ?_⟩
+      · cases g <;> trivial
+      · show g1Prims g q = _
+        rw [← hix]; exact g1Prims_eq np g _ o
+      · cases g <;> rfl
+  · next _ cr r hitem hregs =>
+    rw [hitem, hregs]
+    cases hq : regIx ne np r with
+    | none => rw [hq] at h; cases h
+    | some q =>
+      rw [hq] at h
+      simp only [Option.map_some, Option.some.injEq] at h
+      subst h
+      have hix := regIx_qIndex hq
+      refine ⟨trivial, fun o => ?_, rfl⟩
+      show [Tab.Op.meas q o] = [Tab.Op.meas (qIndex np (toQReg r)) o]
+      rw [hix]
+  · next k _ cr c t hitem hregs =>
+    rw [hregs] at hnd
+    have hct : c ≠ t := by
+      intro e; subst e; simp at hnd
+    split at h
+    · next qc qt hc ht =>
+      have hixc := regIx_qIndex hc
+      have hixt := regIx_qIndex ht
+      have hne : qc ≠ qt := fun e => hct (regIx_inj hc (e ▸ ht))
+      rw [hitem, hregs]
+      cases k <;> simp only [pairPrims, Option.some.injEq, reduceCtorEq] at h
+      all_goals subst h
+      all_goals refine ⟨?_, fun o => ?_, rfl⟩
+      all_goals first
+        | (show qIndex np (toQReg c) ≠ qIndex np (toQReg t); rw [hixc, hixt]; exact hne)
+        | trivial
+        | (simp only [pairCOp, copPrims, hixc, hixt])
+    · cases h
+  · cases h
+
+/-! ## 4. a whole run -/
+
+def pushOut (sc : Script) (r : Reg) (o : Bool) : Script := fun r' => if r' = r then o :: sc r' else sc r'
+
+theorem popReg_pushOut (sc : Script) (r : Reg) (o : Bool) : popReg (pushOut sc r o) r = sc := by
+  funext r'
+  unfold popReg pushOut
+  by_cases h : r' = r <;> simp [h]
+
+/-- the outcome streams of a run: the recorded outcomes `outs` (one per measuring operation, in execution order) prepended,
+    operation by operation, to the stream of the measured register -/
+def feed (ne np : Nat) : List SOp → List Bool → Script → Script
+  | [], _, sc => sc
+  | a :: l, outs, sc =>
+    match (decode ne np a).bind Dec.mreg with
+    | some r => pushOut (feed ne np l outs.tail sc) r (outs.headD false)
+    | none => feed ne np l outs sc
+
+/-- one operation: the compile step refines `appRaw` on streams that start with the recorded outcome -/
+theorem sop_refines (ne np : Nat) (d : Det) (a : SOp) (hdec : (decode ne np a).isSome = true) (hnd : a.regs.Nodup)
+    (s s' : RunState) (ht : TInv (ne + np) s.t) (hs : stepOp np (ne + np) d s (toCOp a) = some s') :
+    TInv (ne + np) s'.t ∧ ∃ new : List Bool, s'.outs = s.outs ++ new ∧
+      ∀ l rest sc, runSeq (appRaw ne np) (a :: l) (some (gstate s.t, feed ne np (a :: l) (new ++ rest) sc)) =
+        runSeq (appRaw ne np) l (some (gstate s'.t, feed ne np l rest sc)) := by
+  obtain ⟨dd, hdd⟩ := Option.isSome_iff_exists.mp hdec
+  obtain ⟨hwf, hpr, hms⟩ := decode_toCOp ne np a dd hdd hnd
+  obtain ⟨ht', new, hnew, hlen, hrun⟩ := cop_refines np (ne + np) d s s' (toCOp a) hwf ht hs
+  refine ⟨ht', new, hnew, ?_⟩
+  intro l rest sc
+  rw [Wire.runSeq_cons]
+  congr 1
+  have e0 := appRaw_map ne np a dd hdd (some (gstate s.t))
+  simp only [Option.map_some] at e0
+  rw [e0]
+  cases hm : dd.mreg with
+  | none =>
+    have hmf : (toCOp a).measures = false := by rw [← hms, hm]; rfl
+    rw [hmf] at hlen
+    have hnil : new = [] := List.length_eq_zero_iff.mp (by simpa using hlen)
+    subst hnil
+    have hfeed : feed ne np (a :: l) ([] ++ rest) sc = feed ne np l rest sc := by
+      simp only [feed, hdd, Option.bind_some, hm, List.nil_append]
+    have hout : dd.out (feed ne np l rest sc) = false := by simp [Dec.out, hm]
+    simp only [List.headD_nil] at hrun
+    rw [hfeed, hout, hpr, hrun]
+    simp only [Option.map_some, Dec.pop, hm]
+  | some r =>
+    have hmt : (toCOp a).measures = true := by rw [← hms, hm]; rfl
+    rw [hmt] at hlen
+    obtain ⟨o, ho⟩ : ∃ o, new = [o] := List.length_eq_one_iff.mp (by simpa using hlen)
+    subst ho
+    have hfeed : feed ne np (a :: l) ([o] ++ rest) sc = pushOut (feed ne np l rest sc) r o := by
+      simp only [feed, hdd, Option.bind_some, hm, List.singleton_append, List.tail_cons, List.headD_cons]
+    have hout : dd.out (pushOut (feed ne np l rest sc) r o) = o := by
+      simp [Dec.out, hm, pushOut]
+    rw [hfeed, hout, hpr]
+    simp only [List.headD_cons] at hrun
+    rw [hrun]
+    simp only [Option.map_some, Dec.pop, hm, popReg_pushOut]
+
+/-- **a whole run of the stabilizer compile loop refines the group semantics**: if the loop, under any measurement setting
+    and outcome script, runs the operations `l` from a valid tableau `s.t` to `s'`, recording the outcomes `new`, then the
+    group semantics run on the outcome streams made of `new` is possible and ends in the stabilizer group of `s'.t`, with
+    every recorded outcome read -/
+theorem run_refines (ne np : Nat) (d : Det) (l : List SOp)
+    (hok : ∀ a, a ∈ l → (decode ne np a).isSome = true ∧ a.regs.Nodup) (s s' : RunState) (ht : TInv (ne + np) s.t)
+    (hs : (l.map toCOp).foldlM (stepOp np (ne + np) d) s = some s') :
+    TInv (ne + np) s'.t ∧ ∃ new : List Bool, s'.outs = s.outs ++ new ∧
+      ∀ sc, runSeq (appRaw ne np) l (some (gstate s.t, feed ne np l new sc)) = some (gstate s'.t, sc) := by
+  induction l generalizing s with
+  | nil =>
+    simp only [List.map_nil, List.foldlM, Option.pure_def, Option.some.injEq] at hs
+    subst hs
+    exact ⟨ht, [], by simp, fun sc => rfl⟩
+  | cons a l ih =>
+    simp only [List.map_cons, List.foldlM] at hs
+    cases h1 : stepOp np (ne + np) d s (toCOp a) with
+    | none => rw [h1] at hs; simp at hs
+    | some s1 =>
+      rw [h1] at hs
+      simp only [Option.bind_eq_bind, Option.bind_some] at hs
+      obtain ⟨hd1, hd2⟩ := hok a List.mem_cons_self
+      obtain ⟨ht1, new1, hn1, hr1⟩ := sop_refines ne np d a hd1 hd2 s s1 ht h1
+      obtain ⟨ht', new2, hn2, hr2⟩ := ih (fun b hb => hok b (List.mem_cons_of_mem _ hb)) s1 ht1 hs
+      refine ⟨ht', new1 ++ new2, by rw [hn2, hn1, List.append_assoc], fun sc => ?_⟩
+      rw [hr1 l new2 sc, hr2 sc]
+
 end Graphiq.Commute
